@@ -40,14 +40,15 @@ def gen_pam_circuit(spec):
     rng = random.Random(spec['seed'] + 1)
     n = spec['n']
     asyncio.run(QuickPartitioner(spec['block']).run(flat, PassData(flat)))
-    c = Circuit(n, [2] * n)
+    r = spec['radix']
+    c = Circuit(n, [r] * n)
     for op in flat:
         if rng.random() < spec.get('barrier_p', 0.25) and n >= 2:
             m = rng.randint(2, min(n, 3))
-            c.append_gate(BarrierPlaceholder(m), rng.sample(range(n), m))
+            c.append_gate(BarrierPlaceholder(m, [r] * m), rng.sample(range(n), m))
         c.append(op)
     if rng.random() < 0.3 and n >= 2:
-        c.append_gate(BarrierPlaceholder(2), rng.sample(range(n), 2))
+        c.append_gate(BarrierPlaceholder(2, [r, r]), rng.sample(range(n), 2))
     return c
 
 
@@ -60,7 +61,7 @@ def all_graphs_on(k):
     return out
 
 
-def fabricate(c):
+def fabricate(c, r=2):
     """exact permutation data for every block of c"""
     from bqskit.ir.circuit import Circuit
     from bqskit.ir.gates import BarrierPlaceholder, ConstantUnitaryGate
@@ -73,11 +74,11 @@ def fabricate(c):
         k = op.num_qudits
         U = op.get_unitary().numpy
         perms = list(it.permutations(range(k)))
-        Ps = {p: PermutationMatrix.from_qudit_location(k, 2, p).numpy for p in perms}
+        Ps = {p: PermutationMatrix.from_qudit_location(k, r, p).numpy for p in perms}
         entry = {}
         for pi_, po in it.product(perms, perms):
-            v = Circuit(k)
-            v.append_gate(ConstantUnitaryGate(Ps[po].T @ U @ Ps[pi_]), list(range(k)))
+            v = Circuit(k, [r] * k)
+            v.append_gate(ConstantUnitaryGate(Ps[po].T @ U @ Ps[pi_], [r] * k), list(range(k)))
             entry[(pi_, po)] = v
         pd = {g: dict(entry) for g in all_graphs_on(k)}
         datas.append({'point': CircuitPoint(cyc, op.location[0]), 'permutation_data': pd})
@@ -187,13 +188,13 @@ def run_real_cases(specs, lock_wait_s):
 
 
 
-def local_unitary(ops, k):
-    """unitary of a list of (matrix, local location) on k qubits"""
+def local_unitary(ops, k, r=2):
+    """unitary of a list of (matrix, local location) on k qudits of radix r"""
     from bqskit.ir.circuit import Circuit
     from bqskit.ir.gates import ConstantUnitaryGate
-    c = Circuit(k)
+    c = Circuit(k, [r] * k)
     for m, loc in ops:
-        c.append_gate(ConstantUnitaryGate(m), list(loc))
+        c.append_gate(ConstantUnitaryGate(m, [r] * len(loc)), list(loc))
     return c.get_unitary().numpy
 
 
@@ -276,14 +277,14 @@ def run_pam_case(spec, prepared=None):
     )
     from bqskit.qis.graph import CouplingGraph
     res = {'spec': spec, 'viol': [], 'lines': [], 'expect': [], 'stats': {}}
-    n, N, r = spec['n'], spec['N'], 2
+    n, N, r = spec['n'], spec['N'], spec.get('radix', 2)
     edges = [tuple(e) for e in spec['edges']]
-    model = MachineModel(N, CouplingGraph(edges, N))
+    model = MachineModel(N, CouplingGraph(edges, N), radixes=[r] * N)
     c = gen_pam_circuit(spec)
     if spec['source'] == 'real':
         c, block_datas = prepared
     else:
-        block_datas = fabricate(c)
+        block_datas = fabricate(c, r)
     tab = H.GateTable(r)
     in_ops = [(tab.op_text(op), op.gate, tuple(op.params), tuple(op.location)) for op in c]
     in_texts = [t for t, _, _, _ in in_ops]
@@ -313,13 +314,25 @@ def run_pam_case(spec, prepared=None):
         data.placement = list(spec['custom_placement'])
     snap['P'] = list(data.placement)
     layout = PAMLayoutPass(spec['layout'], spec['gcw'], **kw) if spec['layout'] else None
-    if layout is not None:
-        H.instrument(layout, rec_l)
-        H.run_recorded(layout, c, data, rec_l, False)
-    snap['pl'] = list(data.placement)
     routing = PAMRoutingPass(spec['gcw'], **kw)
-    H.instrument(routing, rec_r)
-    H.run_recorded(routing, c, data, rec_r, True)
+    try:
+        if layout is not None:
+            H.instrument(layout, rec_l)
+            H.run_recorded(layout, c, data, rec_l, False)
+        snap['pl'] = list(data.placement)
+        H.instrument(routing, rec_r)
+        H.run_recorded(routing, c, data, rec_r, True)
+    except (RuntimeError, ValueError, TypeError, IndexError, KeyError, AssertionError) as e:
+        # the machine is connected, the placement valid, the permutation data complete:
+        # the PAM passes have no reason to fail
+        sig = f'pam-raises-{type(e).__name__}'
+        if r != 2 and 'radix mismatch' in str(e):
+            sig = 'pam-swap-radix-mismatch-on-qudits'
+        res['raised'] = ('pam', type(e).__name__, str(e)[:200])
+        res['viol'].append((sig, f'PAM layout/routing raised {type(e).__name__}: {str(e)[:150]} '
+                            f'on a valid radix-{r} input (connected machine, valid placement, '
+                            'complete permutation data)', rep({'raised': str(e)[:200]}), True))
+        return res
     snap['fm4'] = list(data.final_mapping)
     snap['pi'] = list(rec_r.pi)
     out_data = data[PAMRoutingPass.out_data_key]
@@ -419,7 +432,7 @@ def run_pam_case(spec, prepared=None):
                             rep({'snap': snap}), True))
     # measured hypothesis of C09_pam_variant_partial, block by block
     worst = 0.0
-    SW = np.array([[1, 0, 0, 0], [0, 0, 1, 0], [0, 1, 0, 0], [0, 0, 0, 1]], dtype=complex)
+    SW = SwapGate(r).get_unitary().numpy
     bi = 0
     pam_blocks = [m for m in moves if m.startswith('p ')]
     blk_items = [d for d in out_items if d['kind'] == 'blk']
@@ -435,6 +448,9 @@ def run_pam_case(spec, prepared=None):
             worst = max(worst, 9.0)      # emitted block not found in the output
             continue
         t = [int(x) for x in mv.split()[1:]]
+        if len(t) < 2 or len(t) < 2 + 2 * t[1] + 2:
+            worst = max(worst, 9.0)
+            continue
         k = t[1]
         p1, p2 = t[2:2 + k], t[2 + k:2 + 2 * k]
         rest = t[2 + 2 * k:]
@@ -447,7 +463,7 @@ def run_pam_case(spec, prepared=None):
         ops = [(SW, (ploc.index(a), ploc.index(b))) for a, b in s1]
         ops.append((d['U'], tuple(range(k))))
         ops += [(SW, (ploc.index(a), ploc.index(b))) for a, b in s2]
-        ideal = local_unitary(ops, k) if k > 1 else d['U']
+        ideal = local_unitary(ops, k, r) if k > 1 else d['U']
         worst = max(worst, phase_dist(d['V'], ideal))
         bi += 1
     res['variant_dev'] = worst
